@@ -21,8 +21,8 @@ from .gen import ROOT, REPO
 from . import run as R
 
 UNITS_DIR = os.path.join(ROOT, 'units')
-EVID_DIR = os.path.join(ROOT, 'evidence')
-REPLAY_DIR = os.path.join(ROOT, 'replays')
+EVID_DIR = os.environ.get('VERIF_EVIDENCE_DIR') or os.path.join(ROOT, 'evidence')
+REPLAY_DIR = os.path.join(os.environ.get('VERIF_EVIDENCE_DIR') or ROOT, 'replays')
 KNOWN_FILE = os.path.join(ROOT, 'known_findings.json')
 
 FIXED_TRUSTED = [
